@@ -103,8 +103,9 @@ type Record struct {
 	Committed bool   // End==commit and Commit returned nil
 	Aborted   bool   // an op/open failed and the program rolled back
 	TID       string
-	// EndAt is the logical time when Commit/Rollback returned.
-	EndAt int
+	// EndAt is the logical time when Commit/Rollback returned; BeginAt when the program started.
+	EndAt   int
+	BeginAt int
 }
 
 type opener func(ctx context.Context, name string, tx sop.Transaction) (btree.BtreeInterface[int, string], error)
@@ -116,6 +117,7 @@ func Run(ctx context.Context, p Prog, stores map[string]StoreSpec) *Record {
 	if f, ok := ctx.Value(StampKey{}).(func() int); ok {
 		stamp = f
 	}
+	rec.BeginAt = stamp()
 	defer func() { rec.EndAt = stamp() }()
 	tx, err := infs.NewTransaction(ctx, sopenv.Opts(p.Mode))
 	if err != nil {
